@@ -357,16 +357,15 @@ def makeRequest (c : Chan) (k : ReqKind) : Chan × List Act × Bool :=
 
 /-- `create()` after a failed request: `self.close(); raise ChannelOpenError(code)` -/
 def createFail (c : Chan) (code : Nat) : R :=
-  (close c).andThen fun c => R.ok { c with stage := .done, outcome := .openErr code }
+  close { c with stage := .done, outcome := .openErr code }    -- (the task's result does not interact with `close`)
 
 /-- the main request of `create()` (exec / subsystem / shell), channel.py:1249-1262 -/
 def createMainReq (c : Chan) : R :=
   let (c1, acts, waiting) := makeRequest c c.kind
   if waiting then R.ok { c1 with stage := .waitReq } acts else (createFail c1 4).pre acts
 
-/-- `create()` right after the open confirmation (channel.py:1149-1208): session object, env, pty -/
-def createAfterOpen (c : Chan) : R :=
-  let c1 : Chan := { c with session := true, trace := c.trace ++ [.made] }
+/-- `create()` once the session object exists (channel.py:1157-1208): env requests, then pty or main request -/
+def createAfterMade (c1 : Chan) : R :=
   let envActs := (List.replicate c1.nenv ()).flatMap (fun _ => sendPkt c1 (.req .env false))
   if c1.wantPty then
     let (c2, acts, waiting) := makeRequest c1 .pty
@@ -374,21 +373,28 @@ def createAfterOpen (c : Chan) : R :=
     else (createFail c2 3).pre (envActs ++ acts)
   else (createMainReq c1).pre envActs
 
-/-- `create()` resumes with the outcome `v` of the future it awaited -/
+/-- `create()` right after the open confirmation (channel.py:1149-1155): `session_factory()`, `connection_made` -/
+def createAfterOpen (c : Chan) : R :=
+  createAfterMade { c with session := true, trace := c.trace ++ [.made] }
+
+/-- `create()` resumes with the outcome `v` of the future it awaited (a value that does not fit the
+    suspension point cannot occur; the coroutine then simply stays where it is) -/
 def createResume (c : Chan) (v : WakeVal) : R :=
-  match c.stage, v with
-  | .waitOpen, .openOk => createAfterOpen c
-  | .waitOpen, .openFail _ => R.ok { c with stage := .done, outcome := .openErr 2 }
-  | .waitPty, .reqVal true => createMainReq c
-  | .waitPty, .reqVal false => createFail c 3
-  | .waitReq, .reqVal true =>
-    if c.session then
-      R.ok { c with trace := c.trace ++ [.started], stage := .done, outcome := .ok } [.spawnRead]
-    else R.ok { c with stage := .done, outcome := .exc .attr }       -- `None.session_started()`
-  | .waitReq, .reqVal false => createFail c 4
-  | .waitPty, .exc e => R.ok { c with stage := .done, outcome := .exc e }
-  | .waitReq, .exc e => R.ok { c with stage := .done, outcome := .exc e }
-  | _, _ => R.ok c
+  match v with
+  | .openOk => if c.stage = .waitOpen then createAfterOpen c else R.ok c
+  | .openFail _ =>
+    if c.stage = .waitOpen then R.ok { c with stage := .done, outcome := .openErr 2 } else R.ok c
+  | .reqVal true =>
+    if c.stage = .waitPty then createMainReq c
+    else if c.stage = .waitReq then
+      if c.session then
+        R.ok { c with trace := c.trace ++ [.started], stage := .done, outcome := .ok } [.spawnRead]
+      else R.ok { c with stage := .done, outcome := .exc .attr }       -- `None.session_started()`
+    else R.ok c
+  | .reqVal false =>
+    if c.stage = .waitPty then createFail c 3 else if c.stage = .waitReq then createFail c 4 else R.ok c
+  | .exc e =>
+    if c.stage = .waitPty ∨ c.stage = .waitReq then R.ok { c with stage := .done, outcome := .exc e } else R.ok c
 
 /-- the task wake-up scheduled when the awaited future was resolved -/
 def createWake (c : Chan) : R :=
